@@ -34,7 +34,7 @@ func init() {
 			"(capture-write) no function literal that outlives its creator writes a variable captured from it (such a variable is shared by all concurrent runs); " +
 			"(append-alias) no append on a slice held by a shared object (callback manager handlers, NodePath, Option paths, compiled types) whose result is used elsewhere than stored back (would write into the shared backing array); " +
 			"(per-run-managers) channel/task managers and their containers are allocated inside run; (state-per-run) the state generator is invoked inside the per-run closure only; (options-per-run) extractOption does not write through its inputs.",
-		decided:    []string{"read-only-at-runtime", "no-global-write", "capture-write", "append-alias", "per-run-managers", "state-per-run", "options-per-run"},
+		decided:    []string{"read-only-at-runtime", "no-global-write", "capture-write", "append-alias", "per-run-managers", "state-per-run", "options-per-run", "chunks-not-mutated", "empty-stream-fresh", "node-compile-no-shared-write"},
 		notDecided: []string{"absence of all data races (needs may-happen-in-parallel + points-to analysis)", "races inside user-supplied node bodies", "aliasing through any/reflect"},
 		run:        runC09,
 	})
